@@ -1,7 +1,8 @@
 SPECIFICATION Spec
 CONSTANTS
   MaxLen = 0
-  MaxDepth = 7
+  MaxDepth = 5
+  TurnInside = TRUE
   EmitHist = FALSE
 INVARIANT DepthConsistent
 INVARIANT TrackDefault
